@@ -11,6 +11,8 @@ ENGINES = {
     "C04": ("props.c04", "run"),
     "C05": ("props.c05", "run"),
     "C16": ("props.c16", "run"),
+    "C10": ("props.c10", "run"),
+    "C07": ("props.c07", "run"),
     "C17": ("props.c17", "run"),
     "C09": ("props.c09", "run"),
     "C08": ("props.c08", "run"),
